@@ -1038,4 +1038,20 @@ theorem slug_facts_ok :
     Slug.make ['x', Char.ofNat 0x100, 'y'] = none ∧ Slug.make ['x', Char.ofNat 0xFFFD, 'y'] = none := by
   refine ⟨Slug.slug_latin1, by decide, Slug.slug_probes, Slug.slug_table_shape.1, Slug.slug_table_shape.2, by decide, by decide⟩
 
+/-- **Configuration wiring (regenerated fact).**  How configuration reaches the API component: listen address and HTTP timeouts: every field of every
+configuration literal in `cmd/swat4master` that concerns this property, with the source text of the value it is given
+(`verifharness facts`, go/ast, on every run).  A command-line value wired to another field, a unit conversion or a
+`max`/`min` slipped into one of these literals changes the generated list and breaks this theorem; the harness itself
+drives these components through their real fx modules (DESIGN 10.8), this pins what the modules are given. -/
+def configRows : List (String × String × String × String × String) :=
+    [("components/api/api.go", "*command.Run", "Config", "HTTPListenAddr", "c.HTTPListenAddress"),
+     ("components/api/api.go", "*command.Run", "Config", "HTTPReadTimeout", "c.HTTPReadTimeout"),
+     ("components/api/api.go", "*command.Run", "Config", "HTTPWriteTimeout", "c.HTTPWriteTimeout"),
+     ("components/api/api.go", "*command.Run", "Config", "HTTPShutdownTimeout", "c.HTTPShutdownTimeout")]
+
+theorem facts_config_wiring :
+    (Facts.configWiring.filter fun r => configRows.contains r) = configRows ∧
+    (Facts.configWiring.filter fun r => configRows.any fun c => c.1 == r.1 && c.2.1 == r.2.1 && c.2.2.1 == r.2.2.1 && c.2.2.2.1 == r.2.2.2.1) = configRows := by
+  decide
+
 end Swat4.C17
